@@ -12,6 +12,7 @@ import (
 
 	"github.com/Oneledger/protocol/action"
 	"github.com/Oneledger/protocol/data/keys"
+	"github.com/btcsuite/btcd/btcec"
 
 	"verif/catalogue"
 	"verif/explore"
@@ -221,6 +222,47 @@ func reencodings(t *harness.TxSpec) []reenc {
 				c.Signatures = append([]action.Signature(nil), stx.Signatures...)
 				c.Signatures[i].Signed = append(append([]byte(nil), stx.Signatures[i].Signed...), extra...)
 				add(fmt.Sprintf("sig[%d]-trailing-%d-bytes", i, len(extra)), "signature-trailing-bytes", c.SignedBytes())
+			}
+		}
+	}
+	// the signer KEY bytes are covered by no signature either: another spelling of the same key (a point of the
+	// secp256k1 curve has a compressed, an uncompressed and a hybrid encoding; any key can be padded) is another
+	// document with another hash and the same authorisation - if the key handler accepts it
+	{
+		stx := t.Signed()
+		for i := range stx.Signatures {
+			key := stx.Signatures[i].Signer
+			var alts []struct {
+				name string
+				data []byte
+			}
+			if pt, err := btcec.ParsePubKey(key.Data, btcec.S256()); err == nil && key.KeyType != keys.ED25519 {
+				alts = append(alts, struct {
+					name string
+					data []byte
+				}{"compressed", pt.SerializeCompressed()}, struct {
+					name string
+					data []byte
+				}{"uncompressed", pt.SerializeUncompressed()}, struct {
+					name string
+					data []byte
+				}{"hybrid", pt.SerializeHybrid()})
+			}
+			alts = append(alts, struct {
+				name string
+				data []byte
+			}{"zero-byte-appended", append(append([]byte(nil), key.Data...), 0)}, struct {
+				name string
+				data []byte
+			}{"zero-byte-prepended", append([]byte{0}, key.Data...)})
+			for _, a := range alts {
+				if bytes.Equal(a.data, key.Data) {
+					continue
+				}
+				c := stx
+				c.Signatures = append([]action.Signature(nil), stx.Signatures...)
+				c.Signatures[i].Signer = keys.PublicKey{KeyType: key.KeyType, Data: a.data}
+				add(fmt.Sprintf("sig[%d]-signer-key-%s", i, a.name), "unsigned-field", c.SignedBytes())
 			}
 		}
 	}
